@@ -182,7 +182,10 @@ fn add_types_recursive(
     module: &naga::Module,
     ty: Handle<Type>,
 ) {
-    types.insert(ty);
+    // Types that have already been added have had their members added as well.
+    if !types.insert(ty) {
+        return;
+    }
 
     match &module.types[ty].inner {
         naga::TypeInner::Pointer { base, .. } => add_types_recursive(types, module, *base),
